@@ -801,7 +801,8 @@ impl<'a> Scan<'a> {
                 return j + 1; // the group itself is scanned by the caller's loop
             }
         }
-        if segs.len() == 1 && !leading && is_punct(prev, '.') {
+        // `.name` is a method or field; `..name` is the end of a range, not a member access
+        if segs.len() == 1 && !leading && is_punct(prev, '.') && !(i >= 2 && is_punct(v.get(i - 2), '.')) {
             self.name_facts(&name, ln, None); // method or field name
         } else {
             self.path_facts(&segs, leading, ln, turbofish.as_deref());
